@@ -44,11 +44,20 @@ def gen_case(rng, mode, corrupt):
     pkts = []
     meta = []   # per packet: (offset, slot, nwords)
     off = rng.choice([0, 0x1000, 0x7FFF0])
+    calib = rng.random() < 0.15
+    users = [rng.randrange(1 << 48), rng.randrange(1 << 48)]
+    if rng.random() < 0.5:
+        users[1] = users[0] ^ (1 << rng.randrange(48))      # differing in one bit only
     for pg in range(npk):
         if rng.random() < 0.3:
             fmt = 2 - fmt      # the format may change between packets of a link
         n = rng.randrange(1, 14)
         ws = [rand_word(rng, corrupt) for _ in range(n)]
+        if calib:
+            # a calibration-run shaped page: IHW TDH CDW ...; user fields from a pool of two (same / different both occur), word
+            # index at the boundaries of its 24 bits -- the [E81] rule compares with the CDW of the page before
+            ws = [itsgen.ihw(lanes=0x0FFFFFFF), itsgen.tdh(trigger_type=0x010, internal=1, no_data=0, continuation=0, bc=10 + pg, orbit=1),
+                  itsgen.cdw(index=rng.choice([0, 0, 1, 2, 0xFF, 0x100, 0xFFFF, 0x10000, 0xFFFFFF]), user=rng.choice(users))] + ws[:rng.randrange(0, 5)] + [itsgen.tdt(packet_done=1)]
         # keep the payload inside the guards of C12 (no 0xFF last byte, bytes 10..15 not all zero for format 2)
         if ws[-1][9] == 0xFF:
             ws[-1] = ws[-1][:9] + b"\x00"
